@@ -321,3 +321,16 @@ pub fn deployed_address(network_id: &[u8; 32], deployer: &[u8; 32], salt: &[u8; 
     });
     sha256(&pre.to_xdr(Limits::none()).unwrap())
 }
+
+pub fn si128(v: i128) -> ScVal {
+    ScVal::I128(soroban_sdk::xdr::Int128Parts {
+        hi: (v >> 64) as i64,
+        lo: v as u64,
+    })
+}
+pub fn su32(v: u32) -> ScVal {
+    ScVal::U32(v)
+}
+pub fn saddr(a: &soroban_sdk::Address) -> ScVal {
+    ScVal::Address(a.try_into().unwrap())
+}
